@@ -2,7 +2,7 @@
 import vplib
 from props import value_common as vc
 from props.value_common import (ONE, BIT, U, Sum, Prod, word, option, width, ty_str, all_types, all_values,
-                                compact_enc, of_padded, Builder, make_case, case_ops, ref_run, parse_pair)
+                                compact_enc, of_padded, Builder, make_case, case_ops, ref_run, parse_pair, parse_wpair)
 
 PROP = "C11"
 LEVEL = "proof"
@@ -105,6 +105,49 @@ def gen_cases(rng, tier):
         keep.append(b.add(("snd", p)))
         keep.append(b.add(("fst", p)))
         add(prune_to(b.ops, keep), {"gen": "words"})
+
+    # --- Word: the derived ==, cmp, hash of the struct {value, n} over the same histories
+    # (to_word on every selected entry; entries that are not of a word type must give None)
+    def addw(ops_sel, meta):
+        k[0] += 1
+        ops, sel = ops_sel
+        cases.append(make_case("c%d" % k[0], "wpair", ops, meta, sel=sel))
+
+    for rep_ in range(2 if tier == "quick" else 12):
+        for kk in range(0, 8):
+            nbits = 2 ** kk
+            x = rng.below(2 ** nbits)
+            y = x ^ (1 << rng.below(nbits))
+            b = Builder(rng)
+            bits = vc.int_bits(x, nbits)
+            keep = [b.add(("wi", kk, x)), b.add(("wi", kk, y))]
+            keep.append(b.add(("pad", word(kk), vc.pack(bits + rng.bits(5)))))
+            keep.append(b.add(("cmp", word(kk), vc.pack(bits))))
+            if kk >= 3:
+                keep.append(b.add(("ba", vc.pack(bits))))
+            p = b.add(("prod", keep[1], keep[0]))          # a word of the next size
+            keep.append(p)
+            keep.append(b.add(("snd", p)))                 # sub-value at an odd offset
+            keep.append(b.add(("fst", p)))
+            v = vc.word_value(kk, bits)
+            i, _hn = b.any_history(word(kk), v)
+            keep.append(i)
+            # the same bits at a neighbouring word size and at a non-word type
+            if kk >= 1:
+                keep.append(b.add(("cmp", Prod(word(kk - 1), word(kk - 1)), vc.pack(bits))))
+                keep.append(b.add(("cmp", word(kk - 1), vc.pack(bits[:nbits // 2]))))
+            keep.append(b.add(("left", keep[0], ONE)))     # not a word
+            keep.append(b.add(("unit",)))
+            if len(b.ops) <= 60:
+                addw(prune_to(b.ops, keep), {"gen": "word-struct"})
+    for kk in (8, 9):
+        bs = rng.bytes(2 ** (kk - 3))
+        bs2 = list(bs)
+        bs2[rng.below(len(bs2))] ^= 1 << rng.below(8)
+        b = Builder(rng)
+        keep = [b.add(("wb", kk, bs)), b.add(("wb", kk, bs2)), b.add(("ba", bs)),
+                b.add(("cmp", word(kk), bs)), b.add(("pad", word(kk), bs + [0x55]))]
+        addw(prune_to(b.ops, keep), {"gen": "word-struct"})
     return cases
 
 
@@ -124,14 +167,33 @@ def prop_check(c, r):
         return ("panic", "==, cmp or hash panicked on %s" % c.line[:200])
     ops = case_ops(c)
     pool, _log = ref_run(ops)
-    pr = parse_pair(r, ops, c.meta["sel"])
-    if pr is None:
-        return ("malformed-output", "unparsable harness output for %s" % c.line[:200])
-    codes, oksel, m = pr
+    if c.kind == "wpair":
+        pr = parse_wpair(r, ops, c.meta["sel"])
+        if pr is None:
+            return ("malformed-output", "unparsable harness output for %s" % c.line[:200])
+        codes, oksel, ns, m = pr
+    else:
+        pr = parse_pair(r, ops, c.meta["sel"])
+        if pr is None:
+            return ("malformed-output", "unparsable harness output for %s" % c.line[:200])
+        codes, oksel, m = pr
     for idx, (o, e, (code, _x)) in enumerate(zip(ops, pool, codes)):
         exp = e if isinstance(e, int) else 0
         if code != exp:
             return ("status", "entry %d (`%s`): status %d, expected %d (see C10)" % (idx, vc.op_line(o)[:80], code, exp))
+    if c.kind == "wpair":
+        # Value::to_word: Some(n) exactly for the word types 2^(2^n), n < 32
+        keepw = []
+        for i, got in zip(oksel, ns):
+            want = vc.word_of(pool[i][0])
+            if want is not None and want >= 32:
+                want = None
+            if got != want:
+                return ("to-word", "entry %d (`%s`) of type %s: to_word gives n = %s, expected %s"
+                        % (i, vc.op_line(ops[i])[:60], ty_str(pool[i][0])[:40], got, want))
+            if got is not None:
+                keepw.append(i)
+        oksel = keepw
     ents = [(i, pool[i]) for i in oksel]
     n = len(ents)
     for a in range(n):
@@ -195,7 +257,7 @@ def nontrivial(c, r):
 
 
 def run(rep, tier, rng):
-    vplib.proof_stage(rep, "Props/C11.v", extra_targets=["Value/Run.vo"])
+    vplib.proof_stage(rep, "Props/C11.v", extra_targets=["Value/Run.vo", "Value/RunWord.vo"])
     rep.coverage["trusted_base"] = vplib.GENERIC_TRUSTED + TRUSTED
     rep.coverage["refuted_lemmas"] = ["C11_eq_raw_not_semantic (about the comparison used before the fix 8d443c2; documents F-C11)"]
     binary, out = vplib.harness_build("debug", crate=vc.CRATE)
@@ -214,6 +276,11 @@ def run(rep, tier, rng):
     cor["generator_histogram"] = gens
     npairs = 0
     for c in cases:
+        if c.kind == "wpair":
+            pw = parse_wpair(impl.get(c.cid), case_ops(c), c.meta["sel"]) if isinstance(impl.get(c.cid), list) else None
+            if pw:
+                cor["word_pairs_compared"] = cor.get("word_pairs_compared", 0) + len(pw[3]) ** 2
+            continue
         pr = parse_pair(impl.get(c.cid), case_ops(c), c.meta["sel"]) if isinstance(impl.get(c.cid), list) else None
         if pr:
             npairs += len(pr[1]) ** 2
@@ -221,7 +288,7 @@ def run(rep, tier, rng):
     rep.coverage["rule"] = (
         "pools of values of one type built by different histories (constructors, dirty padded decode, compact decode, sub-value "
         "extraction at odd offsets, prune from a larger type, machine output) plus near misses and same bits at other types; "
-        "all ordered pairs compared with ==, cmp, hash.  Exhaustive over all types with <= %d constructors.  Distinct non-trivial "
+        "all ordered pairs compared with ==, cmp, hash; the same for `Word` (to_word on every entry, then ==, cmp, hash of the structs).  Exhaustive over all types with <= %d constructors.  Distinct non-trivial "
         "= distinct set of (type shape, pair of producing op kinds) for entries that denote the same element" % (3 if tier == "quick" else 4))
     rep.coverage["samples"] = [{"kind": c.kind, "args": c.line[:300], "impl": (impl.get(c.cid) or [])[:60] if isinstance(impl.get(c.cid), list) else impl.get(c.cid)}
                                for c in cases[::max(1, len(cases) // 5)][:6]]
@@ -234,7 +301,8 @@ TRUSTED = [
     "order on types as a parameter (a total order whose Eq is equality).  Gap: a TMR collision.  For pairs of different types the harness only "
     "checks that Value::cmp answers Final::cmp",
     "hash equality is observed through std's DefaultHasher (SipHash, 64 bits): 'equal streams' is observed as 'equal digests'",
-    "Word's derived Eq/Ord/Hash delegate to Value and the constant n; not separately modelled",
+    "Word {value, n} with derived Eq/Ord/Hash is modelled in Value/ValueWord.v (fields compared in declaration order); Final::as_word "
+    "(TMR lookup among the 32 word types) is modelled as structural recognition of 2^(2^n), n < 32",
 ]
 
 
